@@ -66,11 +66,13 @@ def rpsd_diffuse_clause(cl, rng, n, replay):
         N = int(rng.choice([128, 200, 256]))
         W = int(rng.integers(1, 4))
         width = float(rng.choice([0.1, 0.3]))
-        raws = [rp.gen_window(rng, N=N, dt=dt, scale=1.0) for _ in range(W)]
+        amp = [1.0, 1e-8, 1.0, 1e3, 1e-10][j % 5]          # ground motion in SI units is tiny: the ratio does not depend on the unit
+        raws = [rp.gen_window(rng, N=N, dt=dt, scale=amp) for _ in range(W)]
         smooth = j % 2 == 0
         fcs = np.array([1.0, 2.5, 6.0, 12.0])
         sm = dict(operator="konno_and_ohmachi", bandwidth=20., center_frequencies_in_hz=fcs)
-        s = _psd_settings(width, 512, smoothing=(sm if smooth else None))
+        user_n = [512, 64, 512, 100][j % 4]                  # a requested FFT length below the window length is raised, never used to truncate
+        s = _psd_settings(width, user_n, smoothing=(sm if smooth else None))
         out = hvsrpy.process([rp.mk_record(*r) for r in raws], s)
         cl.case(("rpsd", N, dt, W, smooth))
         nn = s.fft_settings["n"]
@@ -91,7 +93,7 @@ def rpsd_diffuse_clause(cl, rng, n, replay):
         if pattern and W >= 2:
             other = rp.gen_window(rng, N=N, dt=dt * 2, scale=1.0)
             recs = ([rp.mk_record(*other)] + recs) if pattern == 1 else (recs + [rp.mk_record(*other)])
-        ds = hvsrpy.HvsrDiffuseFieldProcessingSettings(window_type_and_width=["tukey", width], smoothing=sm, fft_settings=dict(n=512))
+        ds = hvsrpy.HvsrDiffuseFieldProcessingSettings(window_type_and_width=["tukey", width], smoothing=sm, fft_settings=dict(n=user_n))
         h = hvsrpy.process(recs, ds)
         want, margin = rp.curve_diffuse(raws, ds.fft_settings["n"], width, "konno_and_ohmachi", 20., fcs)
         cl.case(("diffuse", pattern, W))
